@@ -20,7 +20,7 @@ CHECKS = {
                 text='Restart (graceful shutdown, or flush of every partition followed by an abrupt end) is an action of the script alphabet; the full sweep after the restart and the append that follows must equal the specification state, which a restart leaves unchanged. Disagreements that appear with a restart are attributed to C03.',
                 ref='3.1, 7/C03'),
     'C07': dict(engine='loglens', technique='TLA+ spec IggyLog (stored offsets per kind/id/partition) + TLC model checking of the offsets instance + trace validation',
-                text='Identities consumer 1, consumer 2 / named consumer, group 1 by id and by name on two partitions; after every step the stored offset and next-poll of every identity on every partition is read and compared with the specification (StoredIsolated is also model-checked as an action property).',
+                text='Two lenses. Log lens: identities consumer 1, consumer 2 / named consumer, group 1 by id and by name on two partitions (and a group life-cycle family: store, delete group, re-create). Group lens: members committing with and without naming the partition. In both, after every step the stored offset and next-poll of every identity on every partition is read and compared with the specification (StoredIsolated is also model-checked as an action property).',
                 ref='3.1, 7/C07'),
     'C14': dict(engine='loglens', technique='TLA+ spec IggyLog (RemovedOK/Expired/LoAfter) + TLC model checking of the retention instance + trace validation with a controlled clock',
                 text='Clock ticks (hook H1), expiry updates, real maintenance passes (MaintainMessagesExecutor) and restarts; every segment that disappears must be closed and expired in specification time, the current offset must not move, appends continue at the next offset and reads below the earliest retained offset start at it.',
@@ -43,6 +43,9 @@ CHECKS = {
     'C17': dict(engine='topiclens', technique='TLA+ spec IggyTopic (MayLand relation, keyMap, rotation window) + TLC model checking + trace validation',
                 text='Sends by partition id (valid and invalid), by key (seeded lengths 1..255) and balanced, interleaved with partition additions/removals and restarts; the landing partition is read off the full read of every partition and judged relationally: named partition or refusal, fixed partition per key and partition count, P consecutive balanced sends on P distinct partitions, exactly one partition per send.',
                 ref='3.3, 7/C17'),
+    'C08': dict(engine='grplens', technique='TLA+ spec IggyGroups (ExclusiveBalanced relation, MayServe rotation window, NextOffsets on the shared group offset) + TLC model checking over every balanced assignment + trace validation with 3 TCP clients',
+                text='Join/leave/dropped connections/partition additions and removals/sends/polls (no partition named, next, auto-commit or manual commit) by three real TCP clients; after every step get_consumer_group and the group offset of every partition are compared with the specification: assignment exclusive and balanced, each poll served from the member\'s own share and in rotation, the offsets returned exactly the ones after the group offset (GroupExactlyOnce is also model-checked as an invariant of a ghost delivery log).',
+                ref='3.5, 7/C08'),
 }
 
 def main():
@@ -64,7 +67,10 @@ def main():
                       kind_free_text='same technique, topic level (partition selection, size limit, counters)'),
                  dict(name='catlens', path='lib/catlens.py + harness/src/cat_lens.rs + specs/IggyCatalogue.tla, MC_IggyCatalogue.tla, Trace_IggyCatalogue.tla',
                       serves_properties=[p for p, c in CHECKS.items() if c['engine'] == 'catlens'],
-                      kind_free_text='same technique, catalogue level over TCP and HTTP with restarts')],
+                      kind_free_text='same technique, catalogue level over TCP and HTTP with restarts'),
+                 dict(name='grplens', path='lib/grplens.py + harness/src/grp_lens.rs + specs/IggyGroups.tla, MC_IggyGroups.tla, Trace_IggyGroups.tla',
+                      serves_properties=['C08', 'C07'],
+                      kind_free_text='same technique, consumer groups with several TCP clients')],
         checks=[],
         notes='See DESIGN.md. Exit codes: 0 held, 1 + VIOLATION line, 2 tool error. known-findings.json lists fixed and open findings.',
         not_applicable=[],
